@@ -141,13 +141,13 @@ def runLoop : List Instr → St → End
 def startCtx (ctx : Ctx) : Ctx := { ctx with highpassed := false, map := (ctx.context : Int) + 1 }
 
 /-- `is = *__map` -/
-def enterCtx (ctx : Ctx) : Ctx := { ctx with is := ctx.smap.getD ctx.map.toNat none }
+def enterCtx (ctx : Ctx) : Ctx := ctx.setIs (ctx.smap.getD ctx.map.toNat none)
 
 /-- a failed run: `smap.highwater(0)` -/
 def _root_.GrVerif.Seg.Ctx.clearHighwater (c : Ctx) : Ctx := { c with highwater := none, highpassed := false }
 
 /-- `*__map = is` -/
-def _root_.GrVerif.Seg.Ctx.storeIs (c : Ctx) : Ctx := { c with smap := c.smap.setIfInBounds c.map.toNat c.is }
+def _root_.GrVerif.Seg.Ctx.storeIs (c : Ctx) : Ctx := c.setCell c.map.toNat c.is
 
 /-- what follows the interpreter loop: `*map = is`, the machine's epilogue, and the garbage collection of `findNDoRule` -/
 def finishAction (s : St) (deletes : Bool) : Except String (Int × Status × Option Nat × Ctx) :=
